@@ -49,7 +49,11 @@ class Obligation:
 class Ctx:
     def __init__(self, program, prop, tier):
         self.p = program
-        self.r = Resolver(program)
+        shared = program.__dict__.setdefault('_shared', {})
+        if 'resolver' not in shared:
+            shared['resolver'] = Resolver(program)
+        self.r = shared['resolver']
+        self._shared = shared
         self.prop = prop
         self.tier = tier
         self.obs = []
